@@ -207,9 +207,9 @@ pub trait MontConfig<const N: usize>: 'static + Sync + Send + Sized {
             *a = res;
 
             if Self::MODULUS_HAS_SPARE_BIT {
-                a.subtract_modulus_with_carry(carry);
-            } else {
                 a.subtract_modulus();
+            } else {
+                a.subtract_modulus_with_carry(carry);
             }
         }
     }
